@@ -113,6 +113,9 @@ func (k *Key) signHash(h []byte) ([]byte, error) {
 
 // TxResult is the outcome of one delivered tx.
 type TxResult struct {
+	VmError   string // EVM transactions: non-empty when execution failed (the Cosmos tx code stays 0)
+	Ret       []byte // EVM return data
+	IsEth     bool
 	Code      uint32
 	Codespace string
 	Log       string
@@ -121,18 +124,37 @@ type TxResult struct {
 	Data      []byte
 }
 
-func (r *TxResult) OK() bool { return r != nil && r.Code == 0 }
+func (r *TxResult) OK() bool { return r != nil && r.Code == 0 && r.VmError == "" }
 
 func FromExec(r *abci.ExecTxResult) *TxResult {
-	return &TxResult{Code: r.Code, Codespace: r.Codespace, Log: r.Log, GasUsed: r.GasUsed, Events: r.Events, Data: r.Data}
+	t := &TxResult{Code: r.Code, Codespace: r.Codespace, Log: r.Log, GasUsed: r.GasUsed, Events: r.Events, Data: r.Data}
+	if r.Code == 0 && len(r.Data) > 0 {
+		var md sdk.TxMsgData
+		if err := md.Unmarshal(r.Data); err == nil {
+			for _, a := range md.MsgResponses {
+				if a.TypeUrl == "/ethermint.evm.v1.MsgEthereumTxResponse" {
+					var er evmtypes.MsgEthereumTxResponse
+					if er.Unmarshal(a.Value) == nil {
+						t.IsEth = true
+						t.VmError = er.VmError
+						t.Ret = er.Ret
+					}
+				}
+			}
+		}
+	}
+	return t
 }
 
 func (r *TxResult) String() string {
 	if r == nil {
 		return "<nil>"
 	}
-	if r.Code == 0 {
+	if r.Code == 0 && r.VmError == "" {
 		return "ok"
+	}
+	if r.Code == 0 {
+		return fmt.Sprintf("evm-fail(%s ret=%x)", r.VmError, trunc(r.Ret, 100))
 	}
 	l := r.Log
 	if len(l) > 160 {
@@ -164,4 +186,11 @@ func (r *TxResult) HasEvent(typ string) bool {
 		}
 	}
 	return false
+}
+
+func trunc(b []byte, n int) []byte {
+	if len(b) > n {
+		return b[:n]
+	}
+	return b
 }
